@@ -167,7 +167,7 @@ def check_case(col, t, seed):
         Fn, Xi, Lam = np.asarray(Fn, dtype=float), np.asarray(Xi, dtype=float), np.asarray(Lam)
     except (ValueError, TypeError):
         Fn = np.zeros(0)
-    if Fn.ndim != 2 or Xi.shape != Fn.shape or Lam.shape != Fn.shape or np.asarray(Phi).ndim != 3:
+    if Fn.ndim != 2 or Xi.shape != Fn.shape or Lam.shape != Fn.shape or np.asarray(Phi).ndim != 3 or np.shape(Phi)[:2] != Fn.shape:
         col.violation("plscf.pLSCF_poles/table_shape", f"pLSCF_poles: tables are not rectangular (orders x poles) arrays of one shape: "
                       f"{np.shape(Fn)}, {np.shape(Xi)}, {np.shape(Lam)}, {np.shape(Phi)}", rep)
         return
